@@ -98,6 +98,12 @@ fn one_stream(i: u64, seed: u64, tier: Tier) -> Out {
         6 => (nd * rng.random_range(2..=10)).clamp(1, 20_000),
         _ => rng.random_range(1..=(nd.max(2))),
     };
+    // a few streams use a sketch size above 2^16 with few items (positions that do not fit 16 bits)
+    let huge_m = i % 97 == 5 && !kind.is_dens();
+    let nd = if huge_m { rng.random_range(2..30) } else { nd };
+    if huge_m {
+        m = rng.random_range(65_530..70_000);
+    }
     // keep the cost of a stream bounded (SuperMinHash is O(m) per item when m >> n)
     while (m as u64) * (nd as u64) > 3_000_000 && m > 4 {
         m /= 2;
@@ -286,7 +292,7 @@ fn long_stream(i: u64, seed: u64, calls: usize) -> Out {
 
 pub fn run(rep: &mut Report) {
     quiet_panics();
-    rep.rule = "per random stream (1..1e5 distinct items, duplicates, sketch size 1..10x the stream) and sketcher (SuperMinHash f32/f64/NoHash, SuperMinHash2 u64/u32, SetSketch u16/u32 with 6 parameter tuples, Opt/RevOpt densification f32/f64 with all three views): the one-slice sketch is compared bit for bit with item-wise, sorted, reversed, shuffled, deduplicated, tripled, chunked (2-8 calls mixing slice and item calls) and winners-first/last executions; stored hashes must be hashes of streamed items. Targeted leg: f32 densified sketchers with >= 1e5 items per bin, stream vs reversed stream (exact ties of the minimum). Long-lived leg: one instance per (kind, m) takes 3 rounds of >= 7e4 (thorough 3e5) calls on 2..40 distinct items with reinit between rounds (counters of the implementation pass 2^16, 2^17), each round compared with the fresh sketch of the distinct items. Distinct = digest of (kind, m, items); non-trivial when >= 2 distinct items".into();
+    rep.rule = "per random stream (1..1e5 distinct items, duplicates, sketch size 1..10x the stream; one stream in 97 has a sketch size in 65530..70000) and sketcher (SuperMinHash f32/f64/NoHash, SuperMinHash2 u64/u32, SetSketch u16/u32 with 6 parameter tuples, Opt/RevOpt densification f32/f64 with all three views): the one-slice sketch is compared bit for bit with item-wise, sorted, reversed, shuffled, deduplicated, tripled, chunked (2-8 calls mixing slice and item calls) and winners-first/last executions; stored hashes must be hashes of streamed items. Targeted leg: f32 densified sketchers with >= 1e5 items per bin, stream vs reversed stream (exact ties of the minimum). Long-lived leg: one instance per (kind, m) takes 3 rounds of >= 7e4 (thorough 3e5) calls on 2..40 distinct items with reinit between rounds (counters of the implementation pass 2^16, 2^17), each round compared with the fresh sketch of the distinct items. Distinct = digest of (kind, m, items); non-trivial when >= 2 distinct items".into();
     let nstreams: u64 = rep.tier.pick(3000, 60_000);
     let seed = subseed(rep.seed, "C04/streams", &[]);
     let tier = rep.tier;
